@@ -2,12 +2,17 @@
 //!   globalip  (C22)  global_only::Transport::dial over probes / exhaustive windows / the whole IPv4 space
 //!   identity  (C20)  PeerId and key encodings
 //!   envelope  (C21)  signatures, signed envelopes, peer records
+mod envelope;
 mod globalip;
+mod identity;
+mod keys;
 
 fn main() {
     let a = vcommon::Args::parse();
     match a.mode.as_str() {
         "globalip" => globalip::main(&a),
+        "identity" => identity::main(&a),
+        "envelope" => envelope::main(&a),
         m => {
             eprintln!("unknown mode {m}");
             std::process::exit(2)
